@@ -3,6 +3,7 @@ package main
 import (
 	"bufio"
 	"bytes"
+	"encoding/json"
 	"fmt"
 	"os"
 	"os/exec"
@@ -60,6 +61,50 @@ func readFixtures(dir string) []fixture {
 	return out
 }
 
+// readSeeded: the independent seeded changes of /verif/seeded/<prop>-<k>/
+// whose meta.json records that a rule of this property reports them are
+// regression fixtures too: the thorough tier re-checks that each is still
+// reported by the recorded rule(s).
+func readSeeded(dir, prop string) []fixture {
+	ents, err := os.ReadDir(dir)
+	if err != nil {
+		return nil
+	}
+	var out []fixture
+	for _, en := range ents {
+		if !en.IsDir() || !strings.HasPrefix(en.Name(), prop+"-") {
+			continue
+		}
+		b, err := os.ReadFile(filepath.Join(dir, en.Name(), "meta.json"))
+		if err != nil {
+			continue
+		}
+		var meta struct {
+			DetectedBy []struct {
+				Property string `json:"property"`
+				Rule     string `json:"rule"`
+			} `json:"detected_by"`
+		}
+		if json.Unmarshal(b, &meta) != nil {
+			continue
+		}
+		seen := map[string]bool{}
+		var expect []string
+		for _, d := range meta.DetectedBy {
+			if d.Property == prop && !seen[d.Rule] && d.Rule != "" {
+				seen[d.Rule] = true
+				expect = append(expect, " "+d.Rule+" ")
+			}
+		}
+		if len(expect) == 0 {
+			continue // recorded as not detected by this property's rules
+		}
+		out = append(out, fixture{Name: "seeded:" + en.Name(), Path: filepath.Join(dir, en.Name(), "patch.diff"), Kind: "broken", Expect: expect})
+	}
+	sort.Slice(out, func(i, j int) bool { return out[i].Name < out[j].Name })
+	return out
+}
+
 func scratchBase() string {
 	if s := os.Getenv("VERIF_SCRATCH"); s != "" {
 		return s
@@ -112,6 +157,7 @@ func runFixture(repo string, p *Property, fx fixture) (lines []string, applied b
 
 func runSelfTest(verifDir, repo string, p *Property) (map[string]interface{}, *Report) {
 	fxs := readFixtures(filepath.Join(verifDir, "mutants", p.ID))
+	fxs = append(fxs, readSeeded(filepath.Join(verifDir, "seeded"), p.ID)...)
 	rep := &Report{Prop: p.ID, cfg: "selftest"}
 	type res struct {
 		fx      fixture
@@ -121,7 +167,7 @@ func runSelfTest(verifDir, repo string, p *Property) (map[string]interface{}, *R
 		errs    string
 	}
 	results := make([]res, len(fxs))
-	sem := make(chan struct{}, 4)
+	sem := make(chan struct{}, 6)
 	var wg sync.WaitGroup
 	for i, fx := range fxs {
 		wg.Add(1)
